@@ -1,4 +1,5 @@
 import HapVerif.Model.Broadcast
+import HapVerif.Gen.Misc
 
 /-! # C18 - BLE broadcast notifications are accepted only if authentic and fresh -/
 
@@ -195,5 +196,18 @@ theorem C18_value_decoding_uint (n : Nat) :
   refine ⟨fun h => ?_, fun h => ?_, fun h => ?_, fun h => ?_⟩ <;>
   · simp only [decodeValue]
     rw [le_take _ _ (by simpa using h)]
+
+/-- the candidate state numbers the generated table describes, relative to the last accepted one -/
+def candByTable (t : List (String × Nat × Nat)) (s : Nat) : List Nat :=
+  t.flatMap (fun r => if r.1 = "at" then [s + r.2.1] else if r.1 = "range" then List.range' (s + r.2.1) (r.2.2 - r.2.1) else [])
+
+/-- tie to the source (regenerated on every run from `_async_notification`): for every last accepted state number
+    the model tries exactly the candidates the source lists, in the source's order (next, current, then +2 .. +99),
+    and the wrap-around bound is the source's `MAX_GSN` -/
+theorem C18_gen_tie (s : Nat) :
+    candidates s = candByTable Gen.Misc.gsnCandidates s ∧ Gen.Misc.maxGsn = 65535 := by
+  constructor
+  · simp [candidates, candByTable, Gen.Misc.gsnCandidates]
+  · decide
 
 end HapVerif.C18
